@@ -71,12 +71,15 @@ Section Psteps.
 
   Lemma pstep_meta_closing m oc : p_ph p = PhOpen -> m_ended m = true -> closing_ok c p m = true ->
     pstep c p (OWriteMeta m, oc) =
-    Some (mkPst (match oc with Done => PhClosing | Failed _ => PhOpen end) (p_failed p || is_fail oc) (p_tmp p) (p_fin p)).
+    Some (mkPst (match oc with Done => if m_exc m then PhClosingX else PhClosing | Failed _ => PhOpen end)
+            (p_failed p || is_fail oc) (p_tmp p) (p_fin p)).
   Proof. intros H1 H2 H3. unfold pstep. rewrite H1, H2, H3. reflexivity. Qed.
 
-  Lemma pstep_rendir oc : p_ph p = PhClosing ->
-    pstep c p (ORenameDir, oc) = Some (mkPst (if did oc then PhDone else PhClosing) (p_failed p || is_fail oc) (p_tmp p) (p_fin p)).
-  Proof. intros H1. unfold pstep. rewrite H1. reflexivity. Qed.
+  Lemma pstep_rendir (x : bool) oc : p_ph p = (if x then PhClosingX else PhClosing) ->
+    pstep c p (ORenameDir, oc) =
+    Some (mkPst (if did oc then (if x then PhDoneX else PhDone) else (if x then PhClosingX else PhClosing))
+            (p_failed p || is_fail oc) (p_tmp p) (p_fin p)).
+  Proof. intros H1. unfold pstep. rewrite H1. destruct x; reflexivity. Qed.
 
   Lemma pstep_upexc oc : pstep c p (OUpExc, oc) = Some (mkPst (p_ph p) true (p_tmp p) (p_fin p)).
   Proof. reflexivity. Qed.
@@ -135,7 +138,7 @@ Section Inv.
     | PInit2 => c_pend s = [] /\ p_ph p = PhInit /\ f_final (c_fs s) = None /\ f_temp (c_fs s) = None
     | PInit3 => c_pend s = [] /\ p_ph p = PhOpen /\ f_final (c_fs s) = None
     | PLoop | PSaveW _ _ | PSaveR _ | PRec _ | PCheck | PWait | PClose => p_ph p = PhOpen /\ f_final (c_fs s) = None
-    | PRen => p_ph p = PhClosing /\ f_final (c_fs s) = None /\ (p_failed p = true -> c_exc s = true) /\
+    | PRen => p_ph p = (if c_exc s then PhClosingX else PhClosing) /\ f_final (c_fs s) = None /\ (p_failed p = true -> c_exc s = true) /\
               exists d, f_temp (c_fs s) = Some d /\ dlookup d FMeta = Some (CMeta (Some (mkMeta (c_rec s) true (c_exc s))))
     | PEnd => (p_failed p = true -> c_exc s = true) /\
               exists d, f_final (c_fs s) = Some d /\ dlookup d FMeta = Some (CMeta (Some (mkMeta (c_rec s) true (c_exc s))))
@@ -777,7 +780,10 @@ Section Preservation.
       destruct (cp_undone _ _ _ _ _ C E) as [_ H]. contradiction. }
     destruct (do_op pl pc0 s (OWriteMeta (mkMeta (c_rec s) true (c_exc s)))) as [s' ok] eqn:Ed.
     pose proof (closing_guard s p I Hpc) as Hg.
-    destruct (main_event s p _ s' ok (fun oc => match oc with Done => PhClosing | Failed _ => PhOpen end)
+    destruct (main_event s p _ s' ok (fun oc => match oc with
+                                                | Done => if c_exc s then PhClosingX else PhClosing
+                                                | Failed _ => PhOpen
+                                                end)
                 (fun _ => p_tmp p) (fun _ => p_fin p) I
                 (fun oc => pstep_meta_closing pc0 p (mkMeta (c_rec s) true (c_exc s)) oc Hph eq_refl Hg)
                 (or_intror (fun _ => conj eq_refl eq_refl)) Ed)
@@ -786,7 +792,7 @@ Section Preservation.
     - assert (oc = Done) by auto; subst oc. eexists.
       eapply (cpc_move s p s'); eauto; try (rewrite Hpc; cbn; try discriminate; auto; fail).
       + cbn. apply Bool.orb_false_r.
-      + unfold phase_rel. cbn. split; [reflexivity|].
+      + unfold phase_rel. cbn. split; [rewrite Hexc; reflexivity|].
         split; [rewrite (final_kept _ _ _ _ Ha); [exact Hfin | discriminate | discriminate]|].
         split.
         { rewrite Bool.orb_false_r, Hexc. intros Hpf. unfold closing_ok in Hg. rewrite Hpf in Hg. cbn in Hg.
@@ -808,9 +814,10 @@ Section Preservation.
     destruct Hph as (Hph & Hfin & Hfe & d & Htemp & Hmeta).
     assert (Hdone : forallb t_done (c_pend s) = true) by (apply (init_pend_done s p I); rewrite Hpc; reflexivity).
     destruct (do_op pl pc0 s ORenameDir) as [s' ok] eqn:Ed.
-    destruct (main_event s p _ s' ok (fun oc => if did oc then PhDone else PhClosing)
+    destruct (main_event s p _ s' ok (fun oc => if did oc then (if c_exc s then PhDoneX else PhDone)
+                                                else (if c_exc s then PhClosingX else PhClosing))
                 (fun _ => p_tmp p) (fun _ => p_fin p) I
-                (fun oc => pstep_rendir pc0 p oc Hph)
+                (fun oc => pstep_rendir pc0 p (c_exc s) oc Hph)
                 (or_intror (fun _ => conj eq_refl eq_refl)) Ed)
       as (oc & B' & Ha & Hpc' & Htd & Hi & Hrec & Hpend & Hexc & Hkill & Hok1 & Hok2 & _).
     destruct ok.
